@@ -122,6 +122,7 @@ class Ctx(object):
         self.tier = tier
         self.config = config
         apply_aliases(facts)
+        apply_field_aliases(facts)
         self.fns = {}
         for fn in facts['fns']:
             self.fns[S.norm_path(fn['path'])] = fn
@@ -433,6 +434,67 @@ def apply_aliases(facts):
     walk(facts['fns'])
     meta['aliases'] = ren
     return ren
+
+
+def apply_field_aliases(facts):
+    """A private struct field of the oracle vocabulary that is gone while exactly one unknown field of the same
+    type appeared in that struct was renamed: read it under its old name. Done once per fact set, in place."""
+    meta = facts.setdefault('meta', {})
+    if meta.get('field_aliases') is not None:
+        return meta['field_aliases']
+    meta['field_aliases'] = {}
+    try:
+        with open(os.path.join(VERIF, 'spec', 'vocabulary_fields.json')) as fh:
+            vocab = json.load(fh)
+    except (IOError, ValueError):
+        return {}
+    ren = {}
+    for a in facts['adts']:
+        ap = S.norm_path(a['path'])
+        if a.get('is_enum') or ap not in vocab or len(a.get('variants') or []) != 1:
+            continue
+        have = {f['name']: f for f in a['variants'][0]['fields']}
+        known = {n: (ty, vis) for n, ty, vis in vocab[ap]}
+        missing = [n for n in known if n not in have]
+        new = [n for n in have if n not in known]
+        for m in missing:
+            cs = [n for n in new if have[n]['ty'] == known[m][0] and have[n].get('vis') != 'pub' and known[m][1] != 'pub']
+            if len(cs) == 1 and len([m2 for m2 in missing if known[m2][0] == known[m][0]]) == 1:
+                ren[(ap, cs[0])] = m
+    if not ren:
+        return {}
+    for a in facts['adts']:
+        ap = S.norm_path(a['path'])
+        for v in a.get('variants') or []:
+            for f in v['fields']:
+                if (ap, f['name']) in ren:
+                    f['name'] = ren[(ap, f['name'])]
+
+    def walk(o):
+        if isinstance(o, dict):
+            k = o.get('k')
+            if k == 'Field' and isinstance(o.get('e'), dict):
+                key = (S.norm_path(canon.strip_ty(o['e'].get('ty') or '')), o.get('name'))
+                if key in ren:
+                    o['name'] = ren[key]
+            if k in ('Struct', 'PStruct') and isinstance(o.get('res'), dict):
+                ap = S.norm_path(H.res_path(o['res']))
+                fl = o.get('fields')
+                if isinstance(fl, list):
+                    for pair in fl:
+                        if isinstance(pair, list) and len(pair) == 2 and isinstance(pair[0], str) and (ap, pair[0]) in ren:
+                            pair[0] = ren[(ap, pair[0])]
+            for v in o.values():
+                if isinstance(v, (dict, list)):
+                    walk(v)
+        elif isinstance(o, list):
+            for v in o:
+                if isinstance(v, (dict, list)):
+                    walk(v)
+    walk(facts['fns'])
+    walk(facts.get('consts', []))
+    meta['field_aliases'] = {'%s.%s' % k: v for k, v in ren.items()}
+    return meta['field_aliases']
 
 
 def load_known():
